@@ -7,9 +7,19 @@ from runner import Ob
 IDS = {}
 
 
+MEANING = {}   # (property, id) -> what the failing check means for that property
+
+
 def ids(props, table):
     for i, meaning in table.items():
         IDS[i] = (IDS.get(i, (set(), ''))[0] | set(props.split()), meaning or IDS.get(i, (set(), ''))[1])
+        if meaning:
+            for p_ in props.split():
+                MEANING[(p_, i)] = meaning
+
+
+def meaning(prop, i, default=''):
+    return MEANING.get((prop, i)) or IDS.get(i, (None, default))[1] or default
 
 
 ids('C03', {100: 'pre-state', 201: 'len', 202: 'count', 203: 'multiplicity', 204: 'lookup', 205: 'is_empty', 206: 'capacity', 207: 'value', 208: 'identity', 302: 'ledger', 901: 'double drop', 903: 'dead compare', 904: 'dead yield', 905: 'dead borrow', 211: '', 212: '', 213: '', 214: '', 215: ''})
@@ -46,6 +56,8 @@ ids('C09 C10', {601: 'ExactSizeIterator::len() wrong', 602: 'size_hint() wrong',
 ids('C09 C10', {621: 'nth() differs from stepping', 622: 'last() differs from stepping', 623: 'count() differs from stepping', 624: 'fold()/for_each() differ from stepping', 625: 'iterator state after a provided method differs from stepping'})
 ids('C10', {302: 'an element handed out by a consuming iterator was leaked or destroyed twice', 901: 'double drop of an element a consuming iterator handed out'})
 ids('C10', {612: 'container not empty after drain', 613: 'container not reusable after drain'})
+ids('C10', {301: 'an element a consuming iterator handed out was destroyed again (panicking closure in for_each/fold)', 731: 'container not usable after an interrupted drain',
+            211: '', 212: '', 213: '', 214: '', 215: '', 904: ''})
 ids('C02 C10', {614: 'elements not released exactly once when a consuming iterator is dropped / excess release when forgotten'})
 ids('C07', {1502: 'clone / subset relations of a set with itself', 601: 'iterator len', 604: 'iteration count', 811: 'contents differ from the model', 206: 'capacity'})
 ids('C07', {701: 'Set::insert return', 702: 'Set::replace return', 703: 'Set::contains', 704: 'Set::get', 705: 'Set::remove return',
@@ -103,11 +115,11 @@ MEM_PROPS = {'C02', 'C03', 'C04', 'C05', 'C17', 'C18'}
 FAM = {}
 
 
-def fam(names, group, quick, deep, profiles=('rel',), dprofiles=None, unwind=None, lto=False, feats=()):
+def fam(names, group, quick, deep, profiles=('rel',), dprofiles=None, unwind=None, lto=False, feats=(), no_dbg=False):
     for n in names.split():
         FAM[n] = dict(group=group, quick=[tuple(x) if isinstance(x, (list, tuple)) else (x,) for x in quick],
                       deep=[tuple(x) if isinstance(x, (list, tuple)) else (x,) for x in deep],
-                      profiles=profiles, dprofiles=dprofiles or profiles, unwind=unwind, lto=lto, feats=tuple(feats))
+                      profiles=profiles, dprofiles=dprofiles or profiles, unwind=unwind, lto=lto, feats=tuple(feats), no_dbg=no_dbg)
 
 
 fam('c01_insert c01_insert_kv', 'g_map', [1, 2, 3], [4, 5], profiles=('rel', 'dbg'))   # N=0: precondition unsatisfiable (overflow is C03)
@@ -116,6 +128,8 @@ fam('c01_lookup c01_retain c01_clear c01_drain_all', 'g_map', [0, 1, 2, 3], [4, 
 
 fam('c09_iter c09_keys c09_values c09_iter_mut c09_values_mut c09_set_iter', 'g_iter', [0, 1, 2, 3], [4, 5], dprofiles=('rel', 'dbg'))
 fam('c09_defaults', 'g_iter', [0, 2], [])
+# zero-sized key and value; second parameter: iterator kind
+fam('c09_zst c10_zst', 'g_iter', [(n, o) for n in (1, 2) for o in range(6)], [(n, o) for n in (0, 3) for o in range(6)], unwind=lambda c: c[0] + 3)
 fam('c09_provided c09_set_provided c10_set_provided', 'g_iter', [1, 2, 3], [4])
 fam('c10_drain_methods c10_set_drain_methods', 'g_iter', [1, 2, 3], [4, 5])
 # second parameter: 0 into_iter, 1 into_keys, 2 into_values, 3 drain
@@ -135,7 +149,11 @@ fam('c08_union_fold c08_intersection_fold c08_difference_fold', 'g_alg', Q8, D8)
 QS = [c for c in Q8 if c != (3, 3)]
 fam('c08_symdiff c08_symdiff_fold', 'g_alg', QS, [(3, 3), (4, 2), (2, 4)])
 # third parameter: 0 union, 1 intersection, 2 difference, 3 symmetric_difference
-fam('c08_provided', 'g_alg', [(2, 2, 0), (2, 2, 1), (2, 2, 2), (2, 2, 3), (1, 2, 0), (2, 1, 1), (2, 1, 2), (1, 2, 3)], [(3, 3, 0), (3, 3, 1), (3, 3, 2), (3, 2, 3)], unwind=lambda c: max(c[0], c[1]) + 2)
+_heavy, _light = [0, 1, 2, 3, 12, 13, 14, 15], [4, 5, 6, 7, 8, 9, 10, 11]   # union / symmetric difference are chains: smaller quick sizes
+_mid = [0, 1, 2, 13]
+fam('c08_provided', 'g_alg', [(2, 2, k) for k in _light] + [(1, 1, k) for k in _heavy] + [(2, 1, k) for k in _mid],
+    [(3, 2, k) for k in _light] + [(1, 2, k) for k in _heavy] + [(2, 1, k) for k in _heavy if k not in _mid] + [(2, 2, k) for k in _mid],
+    unwind=lambda c: max(c[0], c[1]) + 2)
 fam('c08_sub', 'g_alg', Q8[:6], D8)
 fam('c08_difference_ref', 'g_alg', [(1, 1), (2, 2), (3, 2), (2, 3)], [(3, 3), (4, 2)], unwind=lambda c: 9)
 fam('c14_map c14_set', 'g_alg', Q8 + [(2, 3)], [(4, 4), (4, 1), (1, 4), (5, 5)])
@@ -153,6 +171,9 @@ fam('c04_clone_from', 'g_panic', [1, 2], [3])
 fam('c04_drops', 'g_panic', [1, 2, 3], [4, 5], dprofiles=('rel', 'dbg'))
 fam('c04_set_drops', 'g_panic', [1, 2, 3], [4], dprofiles=('rel', 'dbg'))
 fam('c04_lookup c04_entry c04_disjoint', 'g_panic', [1, 2, 3], [4, 5], dprofiles=('rel', 'dbg'))
+# second parameter: 0 into_iter.for_each 1 into_keys.fold 2 into_values.for_each 3 into_iter.all 4 drain.for_each 5 drain.any
+fam('c04_internal', 'g_panic', [(n, o) for n in (2, 3) for o in range(6)], [(4, o) for o in range(6)], unwind=lambda c: c[0] + 2)
+fam('c04_set_internal', 'g_panic', [(n, o) for n in (2, 3) for o in range(2)], [(4, o) for o in range(2)], unwind=lambda c: c[0] + 2)
 fam('c04_from_array', 'g_panic', [2, 3], [4, 5])
 fam('c04_from_iter', 'g_panic', [(0, 2), (1, 2), (2, 3), (3, 4)], [(4, 5), (3, 5)])
 fam('c04_set_extend', 'g_panic', [(1, 2), (2, 3), (3, 3)], [(4, 4)])
@@ -164,10 +185,13 @@ fam('c11_variants c11_key_and_modify', 'g_entry', [0, 1, 2, 3], [4, 5], dprofile
 
 fam('c13_disjoint', 'g_misc', [(0, 0), (2, 0), (0, 2), (1, 1), (2, 1), (1, 2), (2, 2), (3, 2), (2, 3), (3, 3)], [(4, 3), (3, 4), (4, 4), (5, 2)], profiles=('rel', 'dbg'))
 fam('c13_disjoint_tok', 'g_misc', [1, 2, 3], [4, 5])
-fam('c15_clone c15_set_clone c16_from_array c16_set_from_array', 'g_misc', [0, 1, 2, 3], [4, 5], dprofiles=('rel', 'dbg'))
+fam('c15_clone c15_set_clone', 'g_misc', [0, 1, 2, 3], [4, 5], dprofiles=('rel', 'dbg'))
+# N=4: the smallest array with two repeated keys whose later occurrences can be reordered before the first ones
+fam('c16_from_array c16_set_from_array', 'g_misc', [0, 1, 2, 3, 4], [5], dprofiles=('rel', 'dbg'))
 fam('c15_clone_nodrop', 'g_misc', [1, 2, 3], [4, 5], dprofiles=('rel', 'dbg'))
 fam('c15_clone_from', 'g_misc', [1, 2, 3], [4])
-fam('c06_big', 'g_misc', [3], [], unwind=lambda c: 6)
+# no_dbg: the opt-1 build keeps every memcpy of the 4 KiB value (SAT out of memory)
+fam('c06_big', 'g_misc', [3], [], unwind=lambda c: 6, no_dbg=True)
 fam('c16_from_iter', 'g_misc', [(0, 1), (1, 2), (2, 3), (3, 4), (2, 4)], [(3, 5), (4, 5)], profiles=('rel', 'dbg'))
 fam('c16_set_from', 'g_misc', [(1, 2), (2, 3), (3, 4)], [(4, 5)])
 fam('c18_insert_unchecked', 'g_misc', [1, 2, 3], [4, 5], profiles=('rel', 'dbg'))
@@ -178,6 +202,7 @@ fam('c17_remove c17_lookup', 'g_liar', [1, 2, 3], [4], profiles=('rel', 'dbg'))
 fam('c17_disjoint', 'g_liar', [(1, 2), (2, 2), (3, 2), (2, 3), (3, 3)], [(4, 3), (4, 4)], profiles=('rel', 'dbg'))
 # third parameter: 0 intersection, 1 union, 2 difference, 3 symmetric_difference collected into a Set<_, 1>
 fam('c17_collect', 'g_liar', [(2, 1, 0), (2, 1, 1)], [(2, 1, 2), (2, 1, 3), (2, 2, 0), (3, 1, 0)], unwind=lambda c: 4)
+fam('c17_build', 'g_liar', [(n, o) for n in (2, 3) for o in range(4)], [(4, o) for o in range(4)], unwind=lambda c: c[0] + 2)
 fam('c17_two', 'g_liar', [], [1, 2, 3], dprofiles=('rel', 'dbg'))
 fam('c17_set', 'g_liar', [(1, 1), (2, 1), (1, 2)], [(2, 2), (3, 2)])   # (2,2): 8 min
 
@@ -191,19 +216,21 @@ fam('c19_nested', 'g_fmt', [(1, 1), (1, 2)], [(2, 1), (2, 2)], lto=True, unwind=
 fam('c06_fmt_specs', 'g_fmt', [(1, w) for w in range(5)], [(2, w) for w in range(5)], lto=True, unwind=lambda c: 8)
 fam('c19_map c19_set', 'g_fmt', [(n, w) for n in (0, 1, 2) for w in (0, 1, 2)] + [(1, 3), (2, 3)], [(3, w) for w in (0, 1, 2, 3)], lto=True, unwind=lambda c: 8)   # w: 0 {} 1 {:?} 2 {:#?} 3 {:#}
 fam('c19_map_iters', 'g_fmt', [(1, w) for w in range(9)] + [(2, 5)], [(n, w) for n in (2, 3) for w in range(9) if (n, w) != (2, 5)], lto=True, unwind=lambda c: 8)
+fam('c19_zst', 'g_fmt', [(1, w) for w in range(12)], [(2, w) for w in range(12)], lto=True, unwind=lambda c: 8)   # zero-sized key and value
 fam('c19_set_iters', 'g_fmt', [(1, 1, w) for w in range(3)], [(1, 1, 3)] + [(n, m, w) for (n, m) in ((2, 1), (2, 2)) for w in range(4)], lto=True, unwind=lambda c: 8)   # w=3 (symmetric_difference): 6 min -> thorough
 
 fam('c20_tokens', 'g_serde', [(0, 0), (1, 1), (2, 2), (2, 3), (3, 3)], [], unwind=lambda c: 8)
 fam('c20_value_de', 'g_serde', [(1, 1), (2, 2), (2, 3), (3, 3)], [], unwind=lambda c: 8)
-fam('c20_bincode_map c20_bincode_set', 'g_serde', [(0, 0), (1, 1), (2, 2), (3, 3), (2, 3), (1, 3)], [(4, 4), (3, 5)], unwind=lambda c: 12)
+# no_dbg: at opt-1 bincode's non-generic functions are not inlined into the harness crate's IR (body-less externals)
+fam('c20_bincode_map c20_bincode_set', 'g_serde', [(0, 0), (1, 1), (2, 2), (3, 3), (2, 3), (1, 3)], [(4, 4), (3, 5)], unwind=lambda c: 12, no_dbg=True)
 
 # --------------------------------------------------------------------------------------- properties
 PROPS = {
     'C20': dict(fams='c20_bincode_map c20_bincode_set c20_value_de c20_tokens'),
-    'C19': dict(fams='c19_map c19_set c19_nested c19_map_iters c19_set_iters'),
+    'C19': dict(fams='c19_map c19_set c19_nested c19_map_iters c19_set_iters c19_zst'),
     'C02': dict(fams='c01_insert c01_insert_kv c01_checked_insert c01_lookup c01_remove c01_remove_entry c01_retain c01_clear c01_drain_all '
                      'c10_into_iter c10_into_keys c10_into_values c10_set_into_iter c10_drain c10_set_drain c10_provided c10_set_provided c10_drain_methods c10_set_drain_methods '
-                     'c07_insert c07_replace c07_remove c07_take c07_retain c07_clear c07_drain c07_extend c11_or c11_variants c11_key_and_modify c16_from_iter '
+                     'c07_insert c07_replace c07_remove c07_take c07_retain c07_clear c07_drain c07_extend c11_or c11_variants c11_key_and_modify c16_from_iter c15_clone c15_set_clone c15_clone_from '
                      'c03_insert c03_insert_kv c03_or_insert c03_vacant_insert c03_set_insert c03_checked_full c03_from_iter c03_set_extend'),   # rejected arguments destroyed exactly once
     'C12': dict(fams='c01_insert c01_insert_kv c01_checked_insert c01_lookup c01_remove_entry c03_replace_full c07_insert c07_replace c07_lookup c07_take '
                      'c09_iter c09_set_iter c10_into_iter c10_set_into_iter c11_or c11_variants c11_key_and_modify c16_from_iter c16_from_array'),
@@ -211,14 +238,14 @@ PROPS = {
                      'c07_insert c07_remove c07_lookup c08_union c08_intersection c08_difference c08_symdiff c08_sub c14_map c14_set c15_clone c16_from_iter c13_disjoint c06_fmt_specs c19_map c19_set c19_map_iters',
                 fams_std='c06_big c06_fmt_specs c19_map c19_set c06_refs c01_insert c01_remove c15_clone c14_map c08_sub c10_drain',
                 gate='nostd_build'),
-    'C17': dict(fams='c17_insert c17_remove c17_lookup c17_disjoint c17_set c17_collect c17_two'),
+    'C17': dict(fams='c17_insert c17_remove c17_lookup c17_disjoint c17_set c17_collect c17_two c17_build'),
     'C13': dict(fams='c13_disjoint c13_disjoint_tok'),
     'C15': dict(fams='c15_clone c15_set_clone c15_clone_nodrop c15_clone_from'),
     'C16': dict(fams='c16_from_iter c16_from_array c16_set_from c16_set_from_array c07_extend c07_extend_ref'),
     'C18': dict(fams='c18_insert_unchecked c18_disjoint_unchecked'),
     'C11': dict(fams='c11_or c11_variants c11_key_and_modify '
                      'c03_or_insert c03_or_insert_with c03_or_insert_with_key c03_vacant_insert c03_or_default'),   # full map: entry insertion must panic exactly like insert
-    'C04': dict(fams=C04F1 + ' c04_clone_from c04_lookup c04_entry c04_disjoint c04_from_array c04_from_iter c04_set_extend c04_set_algebra'),
+    'C04': dict(fams=C04F1 + ' c04_clone_from c04_lookup c04_entry c04_disjoint c04_internal c04_set_internal c04_from_array c04_from_iter c04_set_extend c04_set_algebra'),
     'C05': dict(fams='c05_panics c01_insert c01_insert_kv c01_checked_insert c01_remove c01_remove_entry c01_retain c01_clear c01_drain_all c01_lookup c01_index '
                      'c07_insert c07_replace c07_remove c07_take c07_retain c10_drain '
                      'c03_insert c03_insert_kv c03_or_insert c03_or_insert_with c03_or_insert_with_key c03_vacant_insert c03_or_default c03_set_insert c03_from_iter c03_set_extend '
@@ -227,8 +254,9 @@ PROPS = {
     'C08': dict(fams='c08_union c08_intersection c08_difference c08_symdiff c08_union_fold c08_intersection_fold c08_difference_fold c08_symdiff_fold c08_provided c08_sub c08_difference_ref c08_predicates'),
     'C14': dict(fams='c14_map c14_set'),
     'C07': dict(fams='c07u_ops c07_insert c07_replace c07_lookup c07_remove c07_take c07_retain c07_clear c07_drain c07_extend c07_extend_ref'),
-    'C09': dict(fams='c09_iter c09_keys c09_values c09_iter_mut c09_values_mut c09_set_iter c09_defaults c09_provided c09_set_provided'),
-    'C10': dict(fams='c10_into_iter c10_into_keys c10_into_values c10_set_into_iter c10_drain c10_set_drain c10_provided c10_set_provided c10_drain_methods c10_set_drain_methods'),
+    'C09': dict(fams='c09_iter c09_keys c09_values c09_iter_mut c09_values_mut c09_set_iter c09_defaults c09_provided c09_set_provided c09_zst'),
+    'C10': dict(fams='c10_into_iter c10_into_keys c10_into_values c10_set_into_iter c10_drain c10_set_drain c10_provided c10_set_provided c10_drain_methods c10_set_drain_methods '
+                     'c10_zst c04_internal c04_set_internal'),   # "each once" also when the closure driving for_each/fold panics
     'C01': dict(fams='c01_insert c01_insert_kv c01_checked_insert c01_lookup c01_index c01_remove c01_remove_entry c01_retain c01_clear c01_drain_all c01_hist c01u_ops '
                      'c03_insert c03_insert_kv c03_checked_full c03_replace_full'),   # a rejected insertion leaves exactly the previous associations
 }
@@ -250,7 +278,7 @@ def _add(obs, fams, deep, extra_feats):
         plan = [(prof, c) for prof in (d['dprofiles'] if deep else d['profiles']) for c in caps]
         # quick tier: families that otherwise run in the release profile only get ONE small capacity in the debug-assertions
         # profile as well (debug_assert! and overflow checks are different code); fat-LTO families are exempt (cost)
-        if not deep and 'dbg' not in d['profiles'] and not d['lto'] and d['quick'] and not extra_feats:
+        if not deep and 'dbg' not in d['profiles'] and not d['lto'] and not d['no_dbg'] and d['quick'] and not extra_feats:
             small = [c for c in d['quick'] if max(c) >= 1]
             if small:
                 plan.append(('dbg', small[0] if max(small[0]) >= 2 or len(small) == 1 else small[1] if len(small) > 1 else small[0]))
